@@ -254,3 +254,98 @@ fn c00_value_json_neg_vs_uint() {
   core::mem::forget(cddl);
 }
 }
+
+// ---------------------------------------------------------------- second batch: text / bytes / any, floats, .size
+
+// CBOR, text and byte-string documents (one symbolic ASCII byte / one symbolic byte)
+ident_cbor!(c00_ident_cbor_tstr_text, "tstr", |_d| { let c: u8 = kani::any(); kani::assume(c < 0x80); let mut s = String::new(); s.push(c as char); (CV::Text(s), c) }, |c| c == c);
+ident_cbor!(c00_ident_cbor_text_text, "text", |_d| { let c: u8 = kani::any(); kani::assume(c < 0x80); let mut s = String::new(); s.push(c as char); (CV::Text(s), c) }, |c| c == c);
+ident_cbor!(c00_ident_cbor_bstr_text, "bstr", |_d| { let c: u8 = kani::any(); kani::assume(c < 0x80); let mut s = String::new(); s.push(c as char); (CV::Text(s), c) }, |c| c != c);
+ident_cbor!(c00_ident_cbor_int_text, "int", |_d| { let c: u8 = kani::any(); kani::assume(c < 0x80); let mut s = String::new(); s.push(c as char); (CV::Text(s), c) }, |c| c != c);
+ident_cbor!(c00_ident_cbor_bstr_bytes, "bstr", |_d| { let c: u8 = kani::any(); let mut v = Vec::new(); v.push(c); (CV::Bytes(v), c) }, |c| c == c);
+ident_cbor!(c00_ident_cbor_bytes_bytes, "bytes", |_d| { let c: u8 = kani::any(); let mut v = Vec::new(); v.push(c); (CV::Bytes(v), c) }, |c| c == c);
+ident_cbor!(c00_ident_cbor_tstr_bytes, "tstr", |_d| { let c: u8 = kani::any(); let mut v = Vec::new(); v.push(c); (CV::Bytes(v), c) }, |c| c != c);
+ident_cbor!(c00_ident_cbor_any_int, "any", |_d| { let n = any_cbor_int(); (cbor_int(n), n) }, |n| n == n);
+ident_cbor!(c00_ident_cbor_any_null, "any", |_d| { let b: bool = kani::any(); (CV::Null, b) }, |b| b == b);
+// JSON, strings
+ident_json!(c00_ident_json_tstr_text, "tstr", |_d| { let c: u8 = kani::any(); kani::assume(c < 0x80); let mut s = String::new(); s.push(c as char); (JV::String(s), c) }, |c| c == c);
+ident_json!(c00_ident_json_text_text, "text", |_d| { let c: u8 = kani::any(); kani::assume(c < 0x80); let mut s = String::new(); s.push(c as char); (JV::String(s), c) }, |c| c == c);
+ident_json!(c00_ident_json_int_text, "int", |_d| { let c: u8 = kani::any(); kani::assume(c < 0x80); let mut s = String::new(); s.push(c as char); (JV::String(s), c) }, |c| c != c);
+ident_json!(c00_ident_json_any_int, "any", |_d| { let n: i64 = kani::any(); (JV::Number(n.into()), n) }, |n| n == n);
+
+with_validator_stubs! {
+/// CBOR `uint .size c` at visit_value level: accepted ⇔ v < 256^c, for every non-negative
+/// integer document and c ≤ 16 (larger c are outside the claim).
+#[kani::proof]
+#[kani::unwind(20)]
+fn c00_value_cbor_size() {
+  let cddl = CDDL { rules: vec![], comments: None };
+  let v = any_cbor_int();
+  kani::assume(v >= 0);
+  let c: usize = kani::any();
+  kani::assume(c <= 16);
+  let lit = Lit::UINT(c);
+  let mut val = CBORValidator::new(&cddl, cbor_int(v), None);
+  cddl::validator::cbor::verif_hooks_state::set_ctrl(&mut val, Some(Op::SIZE));
+  let r = <CBORValidator as Visitor<'_, '_, CErr>>::visit_value(&mut val, &lit);
+  let errs = cddl::validator::cbor::verif_hooks_occ::error_count(&val);
+  let fits = c >= 16 || (v >> (8 * c as u32)) == 0;
+  assert!(r.is_ok());
+  assert!((errs == 0) == fits);
+  kani::cover!(errs == 0 && c == 1);
+  kani::cover!(errs > 0 && c == 8);
+  core::mem::forget(r);
+  core::mem::forget(val);
+  core::mem::forget(cddl);
+}
+}
+
+with_validator_stubs! {
+/// JSON `uint .size c` at visit_value level: accepted ⇔ v < 256^c (u64 documents, c ≤ 16).
+#[kani::proof]
+#[kani::unwind(20)]
+fn c00_value_json_size() {
+  let cddl = CDDL { rules: vec![], comments: None };
+  let v: u64 = kani::any();
+  let c: usize = kani::any();
+  kani::assume(c <= 16);
+  let lit = Lit::UINT(c);
+  let mut val = JSONValidator::new(&cddl, JV::Number(v.into()), None);
+  cddl::validator::json::verif_hooks_state::set_ctrl(&mut val, Some(Op::SIZE));
+  let r = <JSONValidator as Visitor<'_, '_, JErr>>::visit_value(&mut val, &lit);
+  let errs = cddl::validator::json::verif_hooks_occ::error_count(&val);
+  let fits = c >= 8 || (v >> (8 * c as u32)) == 0;
+  assert!(r.is_ok());
+  assert!((errs == 0) == fits);
+  kani::cover!(errs == 0 && c == 1);
+  kani::cover!(errs > 0 && c == 4);
+  core::mem::forget(r);
+  core::mem::forget(val);
+  core::mem::forget(cddl);
+}
+}
+
+with_validator_stubs! {
+/// CBOR `visit_value`: a float literal against a float document: accepted ⇔ equal as
+/// floats (NaN never equals; +0.0 == -0.0), documents and literals over all bit patterns.
+#[kani::proof]
+#[kani::unwind(4)]
+fn c00_value_cbor_float_eq() {
+  let cddl = CDDL { rules: vec![], comments: None };
+  let a: u64 = kani::any();
+  let b: u64 = kani::any();
+  let (fa, fb) = (f64::from_bits(a), f64::from_bits(b));
+  let lit = Lit::FLOAT(fb);
+  let mut val = CBORValidator::new(&cddl, CV::Float(fa), None);
+  let r = <CBORValidator as Visitor<'_, '_, CErr>>::visit_value(&mut val, &lit);
+  let errs = cddl::validator::cbor::verif_hooks_occ::error_count(&val);
+  assert!(r.is_ok());
+  kani::assume(!fa.is_nan() && !fb.is_nan()); // NaN literals cannot be written in CDDL
+  assert!((errs == 0) == (fa == fb));
+  kani::cover!(errs == 0 && a != b);
+  kani::cover!(errs > 0);
+  core::mem::forget(r);
+  core::mem::forget(val);
+  core::mem::forget(cddl);
+}
+}
